@@ -863,7 +863,7 @@ pub fn stages(ctx: &Ctx) -> Vec<Stage> {
         let tol = [1e-14, 1e-11, 1e-8, 1e-6][(i / 32) as usize];
         dispatch(rep, &mut rng, i, n, 1.0, tol, "anchors");
     }));
-    st.push(Stage::new("random", tier.pick(20_000, 200_000), move |i, rep| {
+    st.push(Stage::new("random", tier.pick(60_000, 400_000), move |i, rep| {
         let mut rng = Rng::for_case(seed, "c15-random", i);
         let n = 1 + rng.below(8);
         let scale = rng.log10(-3.0, 3.0);
@@ -871,7 +871,7 @@ pub fn stages(ctx: &Ctx) -> Vec<Stage> {
         dispatch(rep, &mut rng, i, n, scale, tol, "random");
     }));
     // small data: the interpolant's coefficients lie between the zeroing tolerance and 1e-9
-    st.push(Stage::new("small-scale", tier.pick(1_000, 8_000), move |i, rep| {
+    st.push(Stage::new("small-scale", tier.pick(4_000, 16_000), move |i, rep| {
         let mut rng = Rng::for_case(seed, "c15-small", i);
         let n = 1 + rng.below(5);
         let scale = rng.log10(-11.5, -9.5);
